@@ -509,6 +509,11 @@ def plan(ctx):
             for sh in range(4):
                 ses.append({"kind": "session", "cfg": scfg, "base": ctx.seed, "depth": 9, "patterns": [sh, 4 if th else 8]})
     ctx.explore("session-sequences", ses)
+    from mc.pipeline import LARGE
+    big = [{"kind": "cadence", "base": ctx.seed, "all_checkpoints": False, "cfg": dict(c, normalize=True)} for c in LARGE if c.get("clustering")]
+    big += [{"kind": "cadence", "base": ctx.seed, "all_checkpoints": False, "cfg": dict(n_particles=400, d=2, n_total=1200, eval="vec", clustering=True, target="sixblob", n_max_clusters=None, normalize=nm, cluster_every=ce)}
+            for nm in (True, False) for ce in (1, 2)]
+    ctx.explore("large-scopes", big)
     dbase = dict(clustering=True, cluster_every=1, n_particles=24, d=2, ess_ratio=1.0, n_total=10 ** 6, target="bimodal", sample="tpcn")
     duo = [{"kind": "duo", "cfg": dict(dbase, **a), "cfg_b": b, "base": ctx.seed, "depth": 4 if th else 3, "shard": [sh, 2]}
            for a, b in (({}, {"target": "gauss"}), ({"cluster_every": 2}, {"cluster_every": 3, "sample": "rwm"}), ({"n_max_clusters": 2}, {"target": "unequal", "normalize": False, "d": 1}))
